@@ -201,7 +201,13 @@ func runC15(t *simrt.Tape, o Opts) Outcome {
 	} else {
 		n = 1 + t.Choose(200, "len")
 	}
-	if !swept && t.Choose(4, "concurrent-clients") == 1 {
+	// long histories over more keys than a large cache holds (sample windows, counters and segments
+	// of the admission policies roll over only after hundreds of accesses)
+	long := !swept && c15Caps[ci] >= 99 && t.Choose(6, "long-history") == 1
+	if long {
+		n = 24*c15Caps[ci] + t.Choose(200, "len.long")
+	}
+	if !swept && !long && t.Choose(4, "concurrent-clients") == 1 {
 		return runC15Concurrent(t, o, pi, ci, syn, expOn)
 	}
 	cfg := schedCfg(t, o, !syn && t.Choose(2, "schedmix") == 1)
@@ -239,6 +245,9 @@ func runC15(t *simrt.Tape, o Opts) Outcome {
 		nkeys := 6
 		if swept {
 			nkeys = 3
+		}
+		if long {
+			nkeys = capn + 1 + t.Choose(12, "nkeys.long")
 		}
 		settle := func(where string) {
 			if !syn {
@@ -429,14 +438,14 @@ func runC15(t *simrt.Tape, o Opts) Outcome {
 					kind = c15Len
 				default:
 					kind = c15Close
-					if t.Choose(4, "reallyclose") != 0 {
-						kind = c15Len
+					if long || t.Choose(4, "reallyclose") != 0 {
+						kind = c15Len // (a long history closes only at its end)
 					}
 				}
 				key = fmt.Sprintf("k%d", t.Choose(nkeys, "key"))
 			}
 			step(kind, key)
-			if len(viols) == 0 {
+			if len(viols) == 0 && (!long || i%64 == 63) {
 				step(c15Len, "")
 				settle("mid-run")
 			}
